@@ -84,6 +84,7 @@ def main():
             for shp in ([3], [2, 3], [4, 1, 2]):
                 put(sg.rand(*shp).data); put(sg.randn(*shp).data); put(sg.normal(1.0, 2.0, *shp).data); put(sg.randint(0, 10, tuple(shp)).data)
             put(sg.rand((3, 2)).data)
+            put(sg.randn(1).data)            # an odd number of Gaussian draws in total: the generator holds a cached second variate when the program ends
         elif kind == "initialisers":
             for name in ("uniform_", "normal_", "xavier_uniform_", "xavier_normal_", "kaiming_uniform_", "kaiming_normal_"):
                 t = sg.empty(6, 5)
@@ -153,6 +154,25 @@ def main():
                 for part in (tr, te, va):
                     put(part[0]); put(part[1])
                 put(X); put(y)
+        elif kind == "late-import-utils":
+            # the data utilities are imported for the first time AFTER seeding (a function-local import, a later notebook cell): importing draws nothing
+            put(sg.rand(4).data)
+            env.load(with_utils=True)
+            import synapgrad.nn.utils.data as D_
+            put(sg.rand(4).data); put(sg.randn(3).data)
+            tr, te, va = D_.split_dataset([[i, i + 0.5] for i in range(11)], list(range(11)), test_split=0.3, shuffle=True)
+            put(tr[0]); put(te[0])
+        elif kind == "singular-points":
+            # gradients at points where the derivative is infinite / undefined are still a function of the inputs only (inf / nan, never stale memory)
+            for rep_ in range(3):
+                junk = [np.full(n_, float(7 * rep_ + 1), dtype=np.float64) for n_ in (6, 6, 6, 12, 3) for _ in range(6)]; del junk
+                x = sg.tensor(np.array([0.0, 4.0, 0.0, 9.0, 0.0, 1.0]), requires_grad=True, dtype=np.float64)
+                with np.errstate(all="ignore"):
+                    for f in (lambda t: t.sqrt(), lambda t: (t * 1.0) ** 0.5, lambda t: t.log(), lambda t: 1.0 / t, lambda t: t / t):
+                        x._grad = None
+                        y = f(x + 0.0)
+                        y.backward(sg.tensor(np.ones(6), dtype=np.float64))
+                        put(y.data); put(x._grad if x._grad is not None else np.zeros(1))
         elif kind == "train-conv":
             # windows that are disjoint but do not tile the input: every cell of the input gradient must still be defined
             model = nn.Sequential(nn.Conv2d(1, 2, 2), nn.MaxPool2d(2), nn.Flatten(), nn.Linear(2 * 3 * 3, 2))
